@@ -111,9 +111,10 @@ pub fn main(tier: Tier, seed: u64) -> i32 {
       }
         // every reachable coordination state (C13 explorer): each stray command right there, then the
         // run continues in default order.  n=3 only in the thorough tier.
-        if *n == 2 || tier.is_thorough() {
+        let first_n3 = cfgs.iter().position(|c| c.0 == 3) == Some(ci);
+        if *n == 2 || (tier.is_thorough() && first_n3) {
             let space = SrvSpace { n: *n, concurrency: 1, policies: pols.clone(), seed: crate::exec::mix(seed, 1400 + ci as u64), msg_policy: MsgPolicy::Eager };
-            let ex = explore(&space, vec![], &coordination_only, &xbudget, if tier.is_thorough() { 6_000 } else { 3_000 }, true);
+            let ex = explore(&space, vec![], &coordination_only, &xbudget, if tier.is_thorough() { 20_000 } else { 3_000 }, true);
             coord_capped |= ex.capped;
             for m in ex.machinery.iter().take(2) {
                 rep.machinery(m.clone());
@@ -122,7 +123,13 @@ pub fn main(tier: Tier, seed: u64) -> i32 {
             for (h, _) in ex.complete.iter() {
                 for party in 0..*n {
                     let own_sched = h.iter().any(|e| matches!(e, Ev::Schedule { party: p, .. } if *p as usize == party));
-                    for cmd in menu(*n, party, false) {
+                    // n=3: one command of each kind (the full menu runs at the base histories)
+                    let cmds = if *n == 2 {
+                        menu(*n, party, false)
+                    } else {
+                        vec![Stray::ScheduleSame, Stray::Run, Stray::Consts { from: 0, nonempty: true }, Stray::Msg { from: 0, empty: false }, Stray::Msg { from: *n as u64, empty: false }, Stray::ValidateDup { wrong_hash: false }]
+                    };
+                    for cmd in cmds {
                         if matches!(cmd, Stray::ScheduleSame | Stray::ScheduleOtherParty(_)) && !own_sched {
                             continue;
                         }
@@ -213,7 +220,7 @@ pub fn main(tier: Tier, seed: u64) -> i32 {
     rep.set("stray_rejected", json!(rejected));
     rep.set("stray_accepted_as_valid_for_state", json!(accepted));
     rep.set("stray_never_answered", json!(unanswered));
-    rep.rule = "base = default-order complete history (with constants, explicit MPC-message events) for n=2 and n=3; at every prefix length among coordination events and at spaced positions during MPC, each stray command (duplicate schedule / schedule with another party's policy / run / consts from in- and out-of-range parties / mpc_msg with sender in {0, own, n-1, n, n+5, usize::MAX} x empty/non-empty / a further validate, with the right and with a wrong program hash, wherever the party has already received its validate or leads the computation) is sent once to each party; then the base history is continued. In addition (n=2; n=3 in the thorough tier) every command of the menu is sent to each party in every reachable coordination state (all histories of schedule / validate / run / constants / compile events up to commutation, from the C13 explorer). Oracle: no actor panics; an unknown sender is never accepted; a further validate is answered with an error; when the stray command was answered with an error every C13 end-of-history assertion still holds. distinct non-trivial = rejected stray commands by (configuration, party, command, position)".into();
+    rep.rule = "base = default-order complete history (with constants, explicit MPC-message events) for n=2 and n=3; at every prefix length among coordination events and at spaced positions during MPC, each stray command (duplicate schedule / schedule with another party's policy / run / consts from in- and out-of-range parties / mpc_msg with sender in {0, own, n-1, n, n+5, usize::MAX} x empty/non-empty / a further validate, with the right and with a wrong program hash, wherever the party has already received its validate or leads the computation) is sent once to each party; then the base history is continued. In addition (n=2: every command of the menu; thorough tier: the first n=3 configuration with one command of each kind) a command is sent to each party in every reachable coordination state (all histories of schedule / validate / run / constants / compile events up to commutation, from the C13 explorer). Oracle: no actor panics; an unknown sender is never accepted; a further validate is answered with an error; when the stray command was answered with an error every C13 end-of-history assertion still holds. distinct non-trivial = rejected stray commands by (configuration, party, command, position)".into();
     rep.assumptions = vec!["a stray command that is valid for the current state (answered Ok) is indistinguishable from the legitimate one and is only checked for panics".into()];
     rep.finish()
 }
